@@ -567,6 +567,15 @@ def run(chk):
         else:
             patches = damage_set(rng, b["bytes"], b["regions"], b["unchecked"], chk.tier, stats,
                                  stride_target=110 if quick else 10**9)
+        if b["kind"] == "log" and "big" not in b:
+            # a directed sequence: the first frame's header rewritten in place to announce a body of
+            # 2^27 bytes (the reader resizes its buffer to that before read_exact fails): the
+            # allocation is bounded by TABLE_FULL_SIZE, not by the length of the file
+            d = b["bytes"]
+            hdr = bytes([12, 0x50]) + F.varint(1 << 27) + bytes([0x58, 1, 0x65, 1, 2, 3, 4])
+            if len(d) > len(hdr):
+                patches.append(F.overwrite_patch(d, 0, hdr))
+                stats["log_size_forgeries"] += 1
         cases += [(b, p) for p in patches]
     # corpus: (kind, base spec, patch) triples that failed before; replayed on a rebuilt base
     corpus_cases = load_corpus(hxbin, chk)
@@ -812,10 +821,11 @@ def big_logs(hxbin, rng):
     first block, then more frames; (2) a batch split across the block boundary"""
     NB = 1 << 20
 
-    def fit(target, n=34):
+    def fit(target, tail=(), n=34):
+        """34 filler entries, one adjustable filler batch, then the batches `tail`: ends at `target`"""
         adj = 8000
         for _ in range(8):
-            spec = " ".join(["z30000"] * n) + " ; z%d" % adj
+            spec = " ; ".join([" ".join(["z30000"] * n), "z%d" % adj] + list(tail))
             out = Runner(hxbin, []).run(["mklog t | " + spec])
             sizes = [int(t[2:]) for t in out[0].split() if t.startswith("a:")]
             if sizes[-1] == target:
@@ -825,7 +835,8 @@ def big_logs(hxbin, rng):
 
     start = NB - rng.choice([18, 19, 20])
     tiny = {18: "@0~", 19: "@200~", 20: "@0="}[NB - start]
-    a = fit(start) + " ; " + tiny + " ; 6b31@7=7631 ; 6b32@9~"
+    # three small frames in front of the tiny one: zeroing THEIR size byte must be detected
+    a = fit(start, tail=("6b31@1=", "6b32@2=", "6b33@3=")) + " ; " + tiny + " ; 6b34@7=7631 ; 6b35@9~"
     b = fit(NB - 300) + " ; " + " ".join("%s@%d=%s" % ((b"q%02d" % i).hex(), i + 1, "55" * 20) for i in range(20)) + " ; 7a@3=01"
     return [(a, "tiny"), (b, "split")]
 
@@ -840,7 +851,7 @@ def big_damage(rng, b, stats):
     offs.update(rng.below(NB - 400) for _ in range(6))
     patches = []
     for off in sorted(offs):
-        patches += ["f%d:%d" % (off, bit) for bit in (0, 3, 7)] + ["o%d:0" % off]
+        patches += ["f%d:%d" % (off, bit) for bit in (0, 3, 7)] + (["o%d:0" % off] if b["bytes"][off] != 0 else [])
     patches += ["t%d" % c for c in range(NB - 24, min(n, NB + 40))]
     patches += ["x00", "x" + b["bytes"][-30:].hex()]
     stats["offsets"] += len(offs)
